@@ -282,7 +282,6 @@ impl State for FileState {
                 context,
                 command,
             );
-            debug!("Read state entry: {entry}");
             if entry.checksum != checksum {
                 return Err(IggyError::InvalidStateEntryChecksum(
                     entry.checksum,
@@ -290,6 +289,9 @@ impl State for FileState {
                     entry.index,
                 ));
             }
+            // Logged only once the checksum matched: formatting an entry built from damaged bytes
+            // can panic (a timestamp outside the range chrono can represent).
+            debug!("Read state entry: {entry}");
 
             // Only bytes that passed the checksum are handed to the command decoder.
             entry.command().with_error_context(|error| {
